@@ -362,7 +362,7 @@ def r5_reparse_sites(ctx, rid: str = "C05.R5", placeholders: bool = False) -> No
             for p in prog.ancestors(n):
                 if isinstance(p, ast.stmt):
                     break
-                if isinstance(p, ast.Call) and call_name(p).split(".")[-1] in ("SigmaString", "SigmaRegularExpression", "SigmaCasedString", "__class__") and child in p.args:
+                if isinstance(p, ast.Call) and (call_name(p).split(".")[-1] in ("SigmaString", "SigmaRegularExpression", "SigmaCasedString", "__class__") or (call_name(p) == "cls" and f.cls is not None and prog.is_subclass(f.cls.qual, T + ".SigmaString"))) and child in p.args:
                     flows = True
                     break
                 if isinstance(p, ast.Call) and child is p.func:
@@ -395,9 +395,9 @@ def r5_reparse_sites(ctx, rid: str = "C05.R5", placeholders: bool = False) -> No
                     r.violation(rid, q, short(st, 120), "the value is printed (Placeholder parts become the text %name%) and parsed again without insert_placeholders(): a placeholder no transformation handled is emitted into the query as literal text instead of being refused", loc)
                 continue
             if reason:
-                r.ok("C05.R5", q, f"{unparse(n)} is printed and re-parsed — reviewed: {reason}; exact only as far as C05.R2 holds", loc)
+                r.ok(rid, q, f"{unparse(n)} is printed and re-parsed — reviewed: {reason}; exact only as far as C05.R2 holds", loc)
             else:
-                r.violation("C05.R5", q, short(st, 120), "a Sigma string is printed to text and parsed again: unless the printer is a right inverse of the parser (C05.R2) the value changes (backslash before wildcard → literal star); the site is not in the reviewed table", loc)
+                r.violation(rid, q, short(st, 120), "a Sigma string is printed to text and parsed again: unless the printer is a right inverse of the parser (C05.R2) the value changes (backslash before wildcard → literal star); the site is not in the reviewed table", loc)
     if not placeholders:
         # parts hold *unescaped* characters: parsing text taken from a part interprets it a second time
         sc = prog.cls(T + ".SigmaString")
